@@ -377,6 +377,8 @@ func checkC05(p *Prog, l *Ledger) {
 	}
 	// the parser hands every statement of a body or block to the tree, none dropped, reordered or spliced (shared with C03)
 	checkTreeLinks(p, l, "C05/S4-tree-links")
+	// which arm runs and whether a loop goes on depends on the condition only through isTruthy: its table is part of C05
+	checkTruthinessTable(p, l, "C05/S2-truthiness-table")
 	runMon(l, "C05/S1-automaton", "eval/IfStmt", cs.Clauses["*ast.IfStmt"], monIf(), "condition · truthiness · exactly one arm (else only if present)")
 	runMon(l, "C05/S1-automaton", "eval/While", cs.Clauses["*ast.While"], monWhile(), "(condition · body)*, Break/falsy leaves, Continue/None repeats, Return propagates")
 	runMon(l, "C05/S1-automaton", "eval/ForStmt", cs.Clauses["*ast.ForStmt"], monFor(), "initializer once · (condition · body · increment)*, Continue still increments, Break leaves only this loop")
@@ -533,6 +535,8 @@ func checkC06(p *Prog, l *Ledger) {
 		checkScopeWiring(cs, l)
 		checkCallProtocol(cs, l)
 	})
+	// … and C02's operator table (type mismatch, zero divisor, negative shift count are reported before the operation)
+	l.As(map[string]string{"C02/": "C06/S0-fault-detected/operators/"}, func() { checkC02(p, l) })
 	// ---- S1 single reporter
 	checkFlagWriters(p, l, "C06/S1-single-reporter")
 	// ---- S2 / S3
